@@ -12,7 +12,8 @@ MANIFEST = dict(
          "grep-matcher candidate-line contract). The reference is then read declaratively: every matching line is delivered "
          "exactly once as a match, the A lines after and B lines before a match as context (credit_is_window), everything "
          "under passthru, nothing else, in input order, with a break exactly at each gap, 1-based line numbers, absolute "
-         "offsets, and the input length at finish. Model = code = reference correspondence on generated cases ties the model to "
+         "offsets, and the input length at finish; stop-on-nonmatch = the same on the input truncated after the first non-result line "
+         "following a result (stop_on_nonmatch_is_truncation). Model = code = reference correspondence on generated cases ties the model to "
          "core.rs/glue.rs/lines.rs on every run. D10 fixed.",
     note="trusted: Coq kernel, extraction (ExtrOcamlBasic only), driver, harness; binary detection None in the "
          "theorems (binary modes are C14's); the matcher is universally quantified, its candidate contract is a hypothesis "
